@@ -19,7 +19,7 @@ def conf(path):
 def parse_eval(path):
     out, cur = {}, None
     for l in open(path):
-        m = re.match(r"/tmp/seeds\d?/(C\d\d)/(\w): caught by (.*)", l)
+        m = re.match(r"/tmp/seeds\d*/(C\d\d)/(\w): caught by (.*)", l)
         if m:
             head = m[3].split(";")[0]
             cur = (m[1], m[2])
